@@ -15,7 +15,7 @@ def run(ctx):
     search_only = getattr(ctx, 'search_only', False)
     cases = codec.gen_cases(ctx, ctx.n(120, 2500), depth=3)
     cases += codec.presence_grid_cases(ctx, every=3 if ctx.tier == 'quick' else 1)      # every OPTIONAL/DEFAULT pattern of a 3-member SEQUENCE / SET
-    cases += codec.default_constructed_cases(ctx)   # round 7: constructed DEFAULTs holding constructed members
+    cases += codec.default_constructed_cases(ctx) + codec.tagged_choice_in_choice_cases(ctx)   # round 7: constructed DEFAULTs holding constructed members; tagged CHOICE inside an untagged CHOICE next to a sibling with the leaf tag
     cases += codec.tag_grid_cases(ctx, every=3 if ctx.tier == 'quick' else 1)
     exprs, meta, vexprs, vmeta = [], [], [], []
     # deterministic segmented BIT STRINGs: values with all-zero leading octets, cut after every octet, two and three
